@@ -266,7 +266,25 @@ impl World {
         self.next_slot += 1;
         drop(_g);
         // Constructing the future is an a10 call (allocates the op state).
-        let op = alloc::a10(|| ops::make(kind, self.env.as_ref().unwrap(), rng));
+        let reuse = if kind == Kind_::ReadPoolReuse && !self.kept_rbufs.is_empty() {
+            let n = rng.below(self.kept_rbufs.len() as u64) as usize;
+            let mut b = self.kept_rbufs.swap_remove(n);
+            self.kept_sums.swap_remove(n);
+            // Emptied without being released: the buffer still owns its slot.
+            match rng.below(3) {
+                0 => alloc::a10(|| b.clear()),
+                1 => alloc::a10(|| b.truncate(0)),
+                _ => {}
+            }
+            self.trace.push(format!("reuse-rbuf:len={}", b.len()));
+            Some(b)
+        } else {
+            None
+        };
+        let op = match reuse {
+            Some(b) => alloc::a10(|| ops::reuse_read(self.env.as_ref().unwrap(), b)),
+            None => alloc::a10(|| ops::make(kind, self.env.as_ref().unwrap(), rng)),
+        };
         let _g = alloc::MonGuard::new();
         self.slots.push(Slot {
             id,
